@@ -3,12 +3,12 @@ NOT_APPLICABLE = {}
 TB = "Trusted: Go toolchain packages go/parser, go/scanner, go/format, go/types, go/constant, strconv, reflect; pgregory.net/rapid v1.3.0."
 CHECKS = {
  "C20": {
-  "text": "Generated-history search: rapid draws append/clone histories (<=60 steps quick, <=120 thorough, appends of 0-9 items through fifteen builder methods incl. Case / Default alone with a Block appended later, chains of up to 130 clones of clones so capacity is and is not exhausted, clones also taken inside Do callbacks, statements added to statements, statements handed to a group with tokens chained onto what Group.Add returns, one caller slice holding a nil handed to a variadic construct on two statements, names of 53 bytes that differ only near their end, two packages of one name); after every step every live statement is rendered and compared with a list model. No counter-example among the generated histories; absence is not established.",
+  "text": "Generated-history search: rapid draws append/clone histories (<=60 steps quick, <=120 thorough, appends of 0-9 items through fifteen builder methods incl. Case / Default alone with a Block appended later, chains of up to 130 clones of clones so capacity is and is not exhausted, clones also taken inside Do callbacks, statements added to statements, statements handed to a group with tokens chained onto what Group.Add returns, one caller slice holding a nil handed to a variadic construct on two statements, names of 53 bytes that differ only near their end, two packages of one name, values from counting callbacks, identifier tokens holding expressions; Statement.Render of an original and of its fresh clone agree); after every step every live statement is rendered and compared with a list model. No counter-example among the generated histories; absence is not established.",
   "note": TB + " The model accepts a live-view or a snapshot semantics of Clone, since the property allows either, but one and the same for every clone of a history.",
   "technique": "stateful property-based testing (rapid) against a list model",
  },
  "C03": {
-  "text": "Generated search over import scenarios (constructor x hint history x prefix x canonical path x body; one in four staged: settings or part of the body arrive after a first render, fragments are rendered against the File first), plus Qual names that are selector chains next to paths that end like them, with go/types as oracle: the rendered file is type-checked against fabricated packages whose declared names only match when jennifer's alias/no-alias decision is right; every marker symbol must resolve to the package it was built with, through one qualifier per path, with zero type errors. No counter-example among the generated scenarios; absence is not established.",
+  "text": "Generated search over import scenarios (constructor x hint history x prefix x canonical path x body; one in four staged: settings or part of the body arrive after a first render, fragments are rendered against the File first), plus Qual names that are selector chains next to paths that end like them, crowds of 2..300 packages of one name, with go/types as oracle: the rendered file is type-checked against fabricated packages whose declared names only match when jennifer's alias/no-alias decision is right; every marker symbol must resolve to the package it was built with, through one qualifier per path, with zero type errors. No counter-example among the generated scenarios; absence is not established.",
   "note": TB + " Fabricated importer: one synthetic package per path; std names read from GOROOT/src package clauses.",
   "technique": "property-based testing (rapid) with a go/types resolution oracle over fabricated packages",
  },
@@ -18,7 +18,7 @@ CHECKS = {
   "technique": "property-based testing (rapid): set equality between import specs and markers found in the output, plus go/types unused-import detection",
  },
  "C05": {
-  "text": "Exhaustive enumeration of every Go keyword and universe identifier as last path element and as ImportName/ImportNames/ImportAlias hint under four prefixes, plus generated multisets of competing paths and arbitrary parser-valid path strings; oracle = go/token.IsIdentifier/IsKeyword, types.Universe, pairwise distinctness, go/types resolution.",
+  "text": "Exhaustive enumeration of every Go keyword and universe identifier as last path element and as ImportName/ImportNames/ImportAlias hint under four prefixes, reserved words as the first import of a re-executed fresh process, plus generated multisets of competing paths and arbitrary parser-valid path strings; oracle = go/token.IsIdentifier/IsKeyword, types.Universe, pairwise distinctness, go/types resolution.",
   "note": TB + " Paths that go/parser rejects cannot occur in Go source and are outside the domain.",
   "technique": "exhaustive enumeration of reserved words + property-based testing (rapid) with independent reserved-word and uniqueness predicates",
  },
@@ -28,7 +28,7 @@ CHECKS = {
   "technique": "property-based testing (rapid) with bare-vs-qualified predicates and go/types resolution",
  },
  "C01": {
-  "text": "Round-trip search: every .go file of the installed toolchain's src tree (thorough: both installed toolchains, ~14.5k files / ~220k declarations) plus grammar-generated programs is translated construct by construct into the documented DSL element, rendered, re-parsed and compared node-by-node with the source tree. No counter-example among them; absence for all Go programs is not established (bounded depth/arity, files needing type information are skipped and counted). Each translated file is also round-tripped with the alternative elements (Tag(map) for struct tags, Values(Dict) for keyed literals); 24 shapes of very deep / very wide programs (sizes to 2000); every third program also unformatted; predeclared names and built-in calls through their own constructs.",
+  "text": "Round-trip search: every .go file of the installed toolchain's src tree (thorough: both installed toolchains, ~14.5k files / ~220k declarations) plus grammar-generated programs is translated construct by construct into the documented DSL element, rendered, re-parsed and compared node-by-node with the source tree. No counter-example among them; absence for all Go programs is not established (bounded depth/arity, files needing type information are skipped and counted). Each translated file is also round-tripped with the alternative elements (Tag(map) for struct tags, Values(Dict) for keyed literals); 24 shapes of very deep / very wide programs (sizes to 2000); every third program also unformatted; predeclared names and built-in calls through their own constructs, complex constants through Lit(complex128), well-known std packages without a name hint; one File in three is first rendered into a refusing writer.",
   "note": TB + " The translator is part of the check: on the unchanged tree no file mismatches; a translator gap that only a new corpus would expose would be reported as a violation (DESIGN 13).",
   "technique": "round-trip property over a real-program corpus and generated programs (go/ast -> DSL -> bytes -> go/ast equality)",
  },
@@ -38,12 +38,12 @@ CHECKS = {
   "technique": "metamorphic property (null injection) by exhaustive enumeration, rapid generation and corpus programs",
  },
  "C18": {
-  "text": "Exhaustive: every package directory of GOROOT/src rendered alone (with and without prefix) and checked with the go/types resolution oracle against the package clause on disk, once more under an unrelated File setting (preamble, NoFormat, canonical path, Anon, comments, Anon of the package itself); generated colliding sets of up to 60 packages, with crowds of up to 40 third-party packages called like a std package; one gennames run compared row by row with the package clauses.",
+  "text": "Exhaustive: every package directory of GOROOT/src rendered alone (with and without prefix) and checked with the go/types resolution oracle against the package clause on disk, once more under an unrelated File setting (preamble, NoFormat, canonical path, Anon, comments, Anon of the package itself); generated colliding sets of up to 60 packages, with crowds of up to 40 third-party packages called like a std package; every std package of a set printed on its own after failed stand-alone renders; a package imported blank, rendered, then referenced; one gennames run compared row by row with the package clauses.",
   "note": TB + " Real names come from go/parser over GOROOT/src, independent of `go list`.",
   "technique": "exhaustive enumeration of std packages + property-based testing (rapid) with a go/types oracle; differential check of gennames output against package clauses",
  },
  "C19": {
-  "text": "Enumerated cross product (about 6k cases) of C introductions x preamble lists x other imports x prefix x hints x reference order, 1..70 preamble blocks, plus generated preamble texts (texts that start with a line break included; one case in four with a detached C snippet rendered against the File first): parsed output must have exactly one unnamed import of \"C\", all C references qualified by C, and with a preamble an import declaration of its own whose doc comment is the preamble (text compared on the NoFormat twin) ending on the line directly above.",
+  "text": "Enumerated cross product (about 6k cases) of C introductions x preamble lists x other imports x prefix x hints x reference order, 1..70 preamble blocks, the File as first File of a fresh process, plus generated preamble texts (texts that start with a line break included; one case in four with a detached C snippet rendered against the File first): parsed output must have exactly one unnamed import of \"C\", all C references qualified by C, and with a preamble an import declaration of its own whose doc comment is the preamble (text compared on the NoFormat twin) ending on the line directly above.",
   "note": TB + " Raw-form preamble texts are well-formed comments.",
   "technique": "exhaustive cross-product enumeration + property-based testing (rapid) over preamble texts with go/parser / go/types structure oracles",
  },
@@ -63,13 +63,13 @@ CHECKS = {
   "technique": "stateful property-based testing (rapid) with history invariants and a first-sighting name model",
  },
  "C09": {
-  "text": "Generated job sets (4..16 File recipes with competing import names): concurrent build+render on one goroutine per job behind a barrier (20 / 200 rounds, cold start: paths unique to the case) under the race detector, then solo references and three sequential permutations in two interleavings, all compared byte-for-byte with the solo output; every other concurrent round goes through File.Save into one directory, over targets that hold near variants of the output; shared values are built under the form policy (LitFunc callbacks that run late answer differently); every other sequential permutation renders each File behind earlier output in one caller buffer; plus Files sharing the same Code values rendered one after another vs unshared twins; plus 8..14 Files of 2400..3600 nested groups rendered alone and all at once; plus a differential against a re-executed fresh process for Files of confusable literals (the in-process reference would share process-wide state with the render under test). Goroutine interleavings are sampled by the scheduler, not enumerated.",
+  "text": "Generated job sets (4..16 File recipes with competing import names): concurrent build+render on one goroutine per job behind a barrier (20 / 200 rounds, cold start: paths unique to the case) under the race detector, then solo references and three sequential permutations in two interleavings, all compared byte-for-byte with the solo output; every other concurrent round goes through File.Save into one directory, over targets that hold near variants of the output; shared values are built under the form policy (LitFunc callbacks that run late answer differently); every other sequential permutation renders each File behind earlier output in one caller buffer; Files saved under one relative name from different working directories; names tables of 65..130 entries refilled per File; plus Files sharing the same Code values rendered one after another vs unshared twins; plus 8..14 Files of 2400..3600 nested groups rendered alone and all at once; plus a differential against a re-executed fresh process for Files of confusable literals (the in-process reference would share process-wide state with the render under test). Goroutine interleavings are sampled by the scheduler, not enumerated.",
   "note": TB + " Go race detector (-race build of /repo and the harness).",
   "technique": "differential property (solo vs sequential vs concurrent schedules vs fresh process) over rapid-generated job sets under the Go race detector",
  },
  "C10": {
   "level": "fault_enumeration",
-  "text": "For every generated tree (valid programs and invalid random trees) the complete fault matrix is executed: 5 writer-based entry points x 16 writer behaviours (incl. EPIPE, io.ErrClosedPipe, wrapped and *os.PathError forms, io.EOF, context.Canceled, ENOSPC; real pipes whose reading end is closed), trees whose rendering panics after other items were rendered (the caller's *bytes.Buffer and an instrumented writer are as they were), outputs of 40..150 KiB, and File.Save x 7 filesystem situations on a real filesystem; assertions: a failing render performs zero Write calls and leaves an existing target's bytes and mtime untouched, injected writer/FS errors come back non-nil, success delivers exactly the reference bytes (also into a writer that renders other code inside Write, also for NoFormat Files; fragment renders behave alike with a NoFormat context File and its formatted twin). Per-cell counts are in the evidence.",
+  "text": "For every generated tree (valid programs and invalid random trees) the complete fault matrix is executed: 5 writer-based entry points x 16 writer behaviours (incl. EPIPE, io.ErrClosedPipe, wrapped and *os.PathError forms, io.EOF, context.Canceled, ENOSPC; real pipes whose reading end is closed), trees whose rendering panics after other items were rendered (the caller's *bytes.Buffer and an instrumented writer are as they were), outputs of 40..150 KiB, success implies gofmt accepts the raw rendering, File.Save under relative names across os.Chdir, and File.Save x 7 filesystem situations on a real filesystem; assertions: a failing render performs zero Write calls and leaves an existing target's bytes and mtime untouched, injected writer/FS errors come back non-nil, success delivers exactly the reference bytes (also into a writer that renders other code inside Write, also for NoFormat Files; fragment renders behave alike with a NoFormat context File and its formatted twin). Per-cell counts are in the evidence.",
   "note": TB + " Runs as root: permission faults are not used; short writes without error are not injected (they violate io.Writer).",
   "technique": "fault enumeration (writer and filesystem fault matrix) x rapid-generated trees",
  },
@@ -79,7 +79,7 @@ CHECKS = {
   "technique": "exhaustive small domains + property-based testing (rapid) with go/types.Eval / go/constant as value-and-type oracle",
  },
  "C12": {
-  "text": "Strings: rapid byte strings biased to hostile characters (thorough 1.6M + native fuzzing); runes: all code points < 0x300 plus strided sample (thorough: all 1,112,064 valid code points); bytes: all 256. Oracle: go/scanner token shape of `a := <lit>; b`, strconv.Unquote / go/types.Eval value and type; exact string lengths 0..130 and 2^k±1; string, rune and byte literals of the same characters mixed in one File must each render as they do alone, also next to imports of packages named like predeclared types (the File is type-checked); batches of 3..8 such tables judged at once on goroutines of their own; a sample of the renders also through GoString and Save over a near variant of the output.",
+  "text": "Strings: rapid byte strings biased to hostile characters (thorough 1.6M + native fuzzing); runes: all code points < 0x300 plus strided sample (thorough: all 1,112,064 valid code points); bytes: all 256. Oracle: go/scanner token shape of `a := <lit>; b`, strconv.Unquote / go/types.Eval value and type; exact string lengths 0..130 and 2^k±1; string, rune and byte literals of the same characters mixed in one File must each render as they do alone, also next to imports of packages named like predeclared types (the File is type-checked); batches of 3..8 such tables judged at once on goroutines of their own; a sample of the renders also through GoString and Save over a near variant of the output, and as stand-alone statements after other stand-alone renders have failed.",
   "note": TB,
   "technique": "exhaustive rune/byte enumeration + property-based testing (rapid) + native fuzzing with scanner-shape and round-trip oracles",
  },
@@ -99,7 +99,7 @@ CHECKS = {
   "technique": "property-based testing (rapid) with a parsed-literal multiset/order/layout oracle",
  },
  "C17": {
-  "text": "Generated tag maps (0..8 conventional keys to hostile byte strings; thorough 1.6M + native fuzzing): exactly one STRING token, strconv.Unquote, reflect.StructTag.Lookup returns every value, keys sorted, empty map renders nothing; raw and formatted output agree; 4..16 maps rendered concurrently on goroutines of their own round-trip as they do alone; one map given to several Tag calls is left as it was; fields also assembled as Add(name, type).Tag(m) from a caller slice that is used again; structs of 1..2000 tagged fields chained onto one statement or given as one list.",
+  "text": "Generated tag maps (0..8 conventional keys to hostile byte strings; thorough 1.6M + native fuzzing): exactly one STRING token, strconv.Unquote, reflect.StructTag.Lookup returns every value, keys sorted, empty map renders nothing; raw and formatted output agree; 4..16 maps rendered concurrently on goroutines of their own round-trip as they do alone; one map given to several Tag calls is left as it was; fields also assembled as Add(name, type).Tag(m) from a caller slice that is used again; structs of 1..2000 tagged fields chained onto one statement or given as one list; the struct printed on its own after other stand-alone renders have failed.",
   "note": TB,
   "technique": "round-trip property (rapid + native fuzzing) through strconv.Unquote and reflect.StructTag",
  },
